@@ -772,10 +772,21 @@ func (t *ReferenceType) Doc(ctx PrettyContext) prettier.Doc {
 		)
 	}
 
+	typeDoc := parenthesizedTypeDoc(ctx, t.Type, t.Precedence())
+
+	// A directly nested unauthorized reference type must be parenthesized:
+	// `&&T` is lexed as the logical AND operator
+	if inner, ok := t.Type.(*ReferenceType); ok && inner.Authorization == nil {
+		typeDoc = prettier.WrapParentheses(
+			typeDoc,
+			prettier.SoftLine{},
+		)
+	}
+
 	return ctx.Wrap(t, append(
 		doc,
 		referenceTypeSymbolDoc,
-		parenthesizedTypeDoc(ctx, t.Type, t.Precedence()),
+		typeDoc,
 	))
 }
 
